@@ -61,9 +61,16 @@ def apply_contract(ip, c, info, args, kwargs, st, node):
             keys = list(obj.fields) if last == '*' else [last]
             for k in keys:
                 if k in obj.fields:
-                    obj.fields[k] = fresh_like(ip, obj.fields[k], f'{info.qualname}.{k}',
-                                               (c.modifies_types or {}).get(k) if hasattr(c, 'modifies_types')
-                                               else None)
+                    # the declared shape of the callee's parameter tells the sort of the field (flag words etc.)
+                    shp = None
+                    psh = c.params.get(parts[0])
+                    if len(parts) == 2 and psh is not None and hasattr(psh, 'fields'):
+                        shp = psh.fields.get(k)
+                        if shp is not None and len(shp.alternatives()) == 1:
+                            shp = shp.alternatives()[0]
+                        else:
+                            shp = None
+                    obj.fields[k] = fresh_like(ip, obj.fields[k], f'{info.qualname}.{k}', shp)
         elif isinstance(obj, SList) and last in ('[*]', '*'):
             from .loops import havoc_list
             havoc_list(ip, obj, parts[0])
